@@ -29,7 +29,7 @@ PROPERTY = "C02"
 LEVEL = "exploration"
 RULE = ("a case is a batch of generated contents of one table kind (cmap format x shape, hmtx tail pattern, glyf "
         "flag/delta pattern, loca size around 0x20000, name platform/encoding, kern, post, OS/2 version, "
-        "Coverage/ClassDef/SingleSubst around the format decision, gvar point-set/run-length pattern, fvar/avar, "
+        "Coverage/ClassDef/SingleSubst around the format decision, an oversized GPOS PairPos class matrix that must be split, gvar point-set/run-length pattern, fvar/avar, "
         "COLR v0/v1); each content is compiled by the real compile function whose post-condition monitor decodes "
         "the bytes with a fresh library object and with the spec-written reader; HarfBuzz/FreeType then read a "
         "minimal font around the bytes. A content is non-trivial/distinct by (table kind, format decision "
@@ -60,7 +60,7 @@ ASSUMPTIONS = [
 ]
 CASE_TIMEOUT = 300
 MANIFEST = {
-    "text": "Exploration with generated table contents. Post-condition monitors on the real compile functions (cmap formats 0/2/4/6/12/13/14, hmtx/vmtx, Glyph/glyf/loca, name, kern, post, OS/2, Coverage/ClassDef/SingleSubst preWrite and GSUB/GDEF compile, TupleVariation/gvar, fvar, avar, COLR) decode every produced byte string with a fresh library object (self-inverse, compared on plain Python values) and with a struct-level reader written from the OpenType spec; HarfBuzz and FreeType then query a minimal font assembled around the bytes (nominal/variation glyphs, advances, outlines at default and variation locations, names, kerning, glyph names, OS/2 metrics, GSUB shaping, GDEF classes, normalised coordinates, COLR layers). Generators oversample the format-decision boundaries (idDelta vs idRangeOffset, long-metric trimming, flag repeat 255/256, short vectors 255/256, loca 0x20000, Coverage/ClassDef 3:1 rule, SingleSubst delta modulo 65536, delta runs 63/64/65, shared points/tuples). Tests cannot settle this because they compile a few hand-written values per table.",
+    "text": "Exploration with generated table contents. Post-condition monitors on the real compile functions (cmap formats 0/2/4/6/12/13/14, hmtx/vmtx, Glyph/glyf/loca, name, kern, post, OS/2, Coverage/ClassDef/SingleSubst preWrite and GSUB/GDEF compile, TupleVariation/gvar, fvar, avar, COLR) decode every produced byte string with a fresh library object (self-inverse, compared on plain Python values) and with a struct-level reader written from the OpenType spec; HarfBuzz and FreeType then query a minimal font assembled around the bytes (nominal/variation glyphs, advances, outlines at default and variation locations, names, kerning, glyph names, OS/2 metrics, GSUB shaping, GDEF classes, normalised coordinates, COLR layers). A pair-adjustment (GPOS PairPos) class matrix larger than 64 KiB is compiled with the library's own offset-overflow resolution and judged on the effective adjustment of every glyph pair. Generators oversample the format-decision boundaries (idDelta vs idRangeOffset, long-metric trimming, flag repeat 255/256, short vectors 255/256, loca 0x20000, Coverage/ClassDef 3:1 rule, SingleSubst delta modulo 65536, delta runs 63/64/65, shared points/tuples). Tests cannot settle this because they compile a few hand-written values per table.",
     "note": "Trusted base: vmon/oracle/tables.py, HarfBuzz, FreeType. Content is compared modulo glyph-0 cmap entries and representation choices. Oracle disagreement is inconclusive. name table format 1 (langTag records) is not produced by the library and is out of reach.",
     "technique": "post-condition monitors on the real encoders; spec-written struct readers; HarfBuzz/FreeType differential on a minimal font; sys.monitoring decision-site coverage",
     "design_ref": "DESIGN.md §4 C02",
@@ -391,7 +391,7 @@ def _order_font(n):
 
 _GROUP = {"cmap": "cmap", "cmap14": "cmap", "cmap10": "cmap", "hmtx": "hmtx", "vmtx": "vmtx", "glyf": "glyf", "loca": "glyf", "name": "name",
           "kern": "kern", "post": "post", "OS/2": "OS/2", "layout": "layout", "gvar": "gvar", "fvar": "fvar", "avar": "avar", "COLR": "COLR"}
-_TABLE_GROUP = {"cmap": "cmap", "hmtx": "hmtx", "vmtx": "vmtx", "glyf": "glyf", "loca": "glyf", "name": "name", "kern": "kern", "post": "post",
+_TABLE_GROUP = {"GPOS": "layout", "cmap": "cmap", "hmtx": "hmtx", "vmtx": "vmtx", "glyf": "glyf", "loca": "glyf", "name": "name", "kern": "kern", "post": "post",
                 "OS/2": "OS/2", "GSUB": "layout", "GDEF": "layout", "Coverage": "layout", "ClassDef": "layout", "SingleSubst": "layout",
                 "gvar": "gvar", "fvar": "fvar", "avar": "avar", "COLR": "COLR"}
 
@@ -548,6 +548,93 @@ def drv_cmap(case, rnd, ctx):
             _disagree(ctx, "cmap%d harfbuzz/freetype vs struct reader" % fmt, {"freetype": bad_ft[:3], "harfbuzz": bad_hb[:3]})
 
 
+def drv_pairpos(case, rnd, ctx):
+    """A pair-adjustment lookup given as ONE subtable whose records exceed 64 KiB: the compiler has to split it
+    (offset overflow resolution).  Content = the effective adjustment of every (first, second) glyph pair."""
+    from fontTools.ttLib import newTable
+    from fontTools.ttLib.tables import otTables as ot
+    from fontTools.otlLib import builder as B
+    from vmon.gen import c02_otl as G
+
+    shape = case["shape"]
+    c = G.gen_pairpos(rnd, shape)
+    n = c["n"]
+    names = _names(n)
+    descs = [{"kind": "simple", "contours": [], "instructions": b""} for _ in names]
+    fb = _build(names, descs, cmap=_pua(names), recalc=False)
+    font = fb.font
+    gm = font.getReverseGlyphMap()
+
+    def value(v):
+        d = {k: x for k, x in zip(("XPlacement", "YPlacement", "XAdvance", "YAdvance"), v) if x}
+        return B.buildValue(d) if d else None
+    want = {}
+    if c["kind"] == "classes":
+        pairs = {}
+        for (i, j), (v1, v2) in c["values"].items():
+            pairs[(tuple(names[g] for g in c["left"][i]), tuple(names[g] for g in c["right"][j]))] = (value(v1), value(v2))
+            for g1 in c["left"][i]:
+                for g2 in c["right"][j]:
+                    want[(g1, g2)] = (v1, v2)
+        ok, st = _lib(ctx, "buildPairPosClassesSubtable", B.buildPairPosClassesSubtable, pairs, gm, table="GPOS", shape=shape)
+    else:
+        pairs = {}
+        for (i, j), (v1, v2) in c["values"].items():
+            g1, g2 = c["left"][i][0], c["right"][j][0]
+            pairs[(names[g1], names[g2])] = (value(v1), value(v2))
+            want[(g1, g2)] = (v1, v2)
+        ok, st = _lib(ctx, "buildPairPosGlyphsSubtable", B.buildPairPosGlyphsSubtable, pairs, gm, table="GPOS", shape=shape)
+    if not ok:
+        return
+    gp = _mk_gsub([B.buildLookup([st])], [("kern", [0])])
+    gpos = newTable("GPOS")
+    t = gpos.table = ot.GPOS()
+    for k, v in gp.table.__dict__.items():
+        setattr(t, k, v)
+    font["GPOS"] = gpos
+    repacker = bool(case.get("hb_repacker"))
+    font.cfg["fontTools.ttLib.tables.otBase:USE_HARFBUZZ_REPACKER"] = repacker     # False: the library's own overflow resolution
+    ctx.sample = {"kind": "GPOS PairPos", "shape": shape, "numGlyphs": n, "first_classes": len(c["left"]), "second_classes": len(c["right"]),
+                  "pairs": len(want), "harfbuzz_repacker": repacker, "first_values": sorted(c["values"].items())[:3]}
+    _cur["cap"].pop("GPOS", None)
+    ok, data = _save(ctx, fb, table="GPOS", shape=shape)
+    if not ok:
+        return
+    cap = _cur["cap"].get("GPOS")
+    if cap is None:
+        ctx.inconclusive("GPOS monitor saw no compile")
+        return
+    got = cap["reader"][0] or {}
+    ctx.judged()
+    if got != want:
+        bad = [k for k in set(want) | set(got) if want.get(k) != got.get(k)]
+        _semantic(ctx, "GPOS", "reader", "compiled pair adjustments differ from the generated content",
+                  {"pairs_differing": len(bad), "first_glyphs_affected": sorted({k[0] for k in bad})[:8], "first": _dictdiff(want, got)},
+                  field="PairPos", diff=_diff_class(want, got), subtables=len(cap["raw"][0] or []) > 1)
+    # HarfBuzz against the struct reader's effective values: every first glyph with a few second glyphs
+    hb = _hb(data)
+    firsts = sorted({k[0] for k in got} | {g for cl in c["left"] for g in cl})
+    seconds = sorted({g for cl in c["right"] for g in cl}) + [n - 1]
+    bad = []
+    cnt = 0
+    zero = ((0, 0, 0, 0), (0, 0, 0, 0))
+    for g1 in firsts:
+        for g2 in rnd.sample(seconds, 3):
+            v1, v2 = got.get((g1, g2), zero)
+            sh = hb.shape([0xF0000 + g1, 0xF0000 + g2], {"kern": True})
+            cnt += 1
+            if len(sh) != 2:
+                bad.append((g1, g2, "glyph count", len(sh)))
+                continue
+            obs = ((sh[0][4], sh[0][5], sh[0][2] - 500, 0), (sh[1][4], sh[1][5], sh[1][2] - 500, 0))
+            if obs != ((v1[0], v1[1], v1[2], 0), (v2[0], v2[1], v2[2], 0)):
+                bad.append((g1, g2, (v1, v2), obs))
+    ctx.judged()
+    _note("GPOS.pairs-shaped-by-harfbuzz", cnt)
+    if bad:
+        _disagree(ctx, "layout PairPos: harfbuzz vs struct reader", bad[:4])
+
+
 def drv_cmap10(case, rnd, ctx):
     """Format 10 (trimmed array, 32-bit) has no encoder in the library: a cmap table that contains one is decompiled
     and compiled again; the subtable must come through byte for byte next to the re-encoded known subtables."""
@@ -650,7 +737,9 @@ def cases(tier, seed):
     # ---- glyf sizes around the 0x20000 loca switch (and small tables with odd glyph lengths)
     locs = [(0x20000 - 2, 0, 1), (0x20000, 0, 1), (0x20000 - 1, 1, 1), (0x20000 - 3, 1, 1), (0x20000 - 4, 2, 1),
             (0x20000 - 6, 3, 1), (0x20000 + 2, 0, 1), (0x20000 - 2, 0, 0), (0x20000 - 3, 1, 0), (0x20000 - 4, 0, 2),
-            (0x20000 - 4, 0, 4), (0x20000, 0, 4), (3001, 3, 1), (3000, 0, 0), (3003, 1, 0), (3002, 2, 4)]
+            (0x20000 - 4, 0, 4), (0x20000, 0, 4), (3001, 3, 1), (3000, 0, 0), (3003, 1, 0), (3002, 2, 4),
+            # unpadded odd-length glyphs with an even total: odd offsets inside, even last offset
+            (3002, 2, 0), (3004, 4, 0), (0x20000 - 2, 2, 0), (0x20000 - 2, 2, 1), (0x20000 - 4, 4, 1)]
     if T_:
         locs += [(0x20000 + d, o, p) for d in (-12, -10, -8, -7, -5, 1, 3, 4, 6, 0x1000, 0x20000) for o in (0, 1, 2, 5) for p in (0, 1, 2, 4)]
     seen = set()
@@ -685,6 +774,14 @@ def cases(tier, seed):
     for shape in GO.CLASSDEF_SHAPES:
         for part in range(3 * P):
             add("otl", what="classdef", shape=shape, part=part, reps=1)
+    # ---- pair adjustment lookups that overflow 16-bit offsets (subtable splitting by the pure-Python packer)
+    add("pairpos", shape="classes_2split", part=0)
+    add("pairpos", shape="classes_small", part=0)
+    if T_:
+        for shape in GO.PAIRPOS_SHAPES:
+            for part in range(1, 3):
+                add("pairpos", shape=shape, part=part)
+        add("pairpos", shape="classes_2split", part=9, hb_repacker=1)
     # glyph ids up to 65534: struct reader and self-inverse only
     for what, shape in (("single", "wrap_delta"), ("single", "const_delta"), ("single", "random"), ("coverage", "boundary"),
                         ("coverage", "last_glyph"), ("classdef", "end_at_last"), ("classdef", "scattered")):
@@ -772,7 +869,7 @@ REQUIRED_SITES = [
     "post.new-extra-name", "Coverage.format2-chosen", "ClassDef.format1-chosen", "ClassDef.format2-chosen",
     "SingleSubst.format1-chosen", "TupleVariation.private-point-numbers", "TupleVariation.intermediate-region",
     "gvar.shared-point-numbers", "TupleVariation.zero-run-of-64", "TupleVariation.byte-run-of-64", "TupleVariation.word-run-of-64",
-    "COLR.layer-reuse-slice",
+    "COLR.layer-reuse-slice", "PairPos.format2-overflow-split",
 ]
 
 
@@ -2194,6 +2291,41 @@ def _gdef_read(data, strict=True):
             "markGlyphSets": [c[1] for c in g["markGlyphSets"]] if g["markGlyphSets"] is not None else None}
 
 
+def _val(v):
+    return (0, 0, 0, 0) if v is None else tuple(int(getattr(v, k, 0) or 0) for k in ("XPlacement", "YPlacement", "XAdvance", "YAdvance"))
+
+
+def _gpos_content(table, rev):
+    """Per lookup: the effective pair adjustments {(gid1, gid2): (value1, value2)} of its PairPos subtables
+    (None for lookups of other types), evaluated by the reader's rule on plain values taken from the objects."""
+    out = []
+    n = len(rev)
+    for lk in (table.LookupList.Lookup if table.LookupList else []):
+        plain = []
+        for st in lk.SubTable:
+            st = getattr(st, "ExtSubTable", st)
+            if type(st).__name__ != "PairPos":
+                plain = None
+                break
+            cov = [rev[g] for g in st.Coverage.glyphs]
+            if st.Format == 1:
+                pairs = {}
+                for g1, ps in zip(cov, st.PairSet):
+                    pairs[g1] = {rev[r.SecondGlyph]: (_val(r.Value1), _val(r.Value2)) for r in ps.PairValueRecord}
+                plain.append({"format": 1, "coverage": cov, "pairs": pairs})
+            else:
+                plain.append({"format": 2, "coverage": cov,
+                              "classDef1": {rev[g]: c for g, c in st.ClassDef1.classDefs.items() if c},
+                              "classDef2": {rev[g]: c for g, c in st.ClassDef2.classDefs.items() if c},
+                              "matrix": [[(_val(r2.Value1), _val(r2.Value2)) for r2 in r1.Class2Record] for r1 in st.Class1Record]})
+        out.append(None if plain is None else T.pairpos_effective(plain, n))
+    return out
+
+
+def _gpos_read(data, strict=True, n=0):
+    return [None if sts is None else T.pairpos_effective(sts, n) for sts in T.gpos_pairpos(data)]
+
+
 def _setup_otl():
     from fontTools.ttLib.tables import otTables as ot, otBase
     from fontTools.ttLib import newTable
@@ -2291,18 +2423,27 @@ def _setup_otl():
 
     hooks.attach(ot, "SingleSubst.preWrite", post=post_ss, name="SingleSubst.preWrite")
 
+    _content = {"GSUB": _gsub_content, "GDEF": _gdef_content, "GPOS": _gpos_content}
+
+    def pre_table(a, kw):
+        # the content is taken *before* compile: overflow resolution rewrites the object tree (subtable splits)
+        tab, font = a[0], a[1]
+        if tab.tableTag not in _content:
+            return None
+        return {"want": _content[tab.tableTag](tab.table, _rev(font))}
+
     def post_table(state, a, kw, res, exc):
-        if exc is not None:
+        if exc is not None or state is None:
             return
         tab, font = a[0], a[1]
         tag = tab.tableTag
-        if tag not in ("GSUB", "GDEF"):
-            return
         res = bytes(res)
         rev = _rev(font)
-        content = _gsub_content if tag == "GSUB" else _gdef_content
-        read = _gsub_read if tag == "GSUB" else _gdef_read
-        want = content(tab.table, rev)
+        content = _content[tag]
+        read = {"GSUB": _gsub_read, "GDEF": _gdef_read, "GPOS": lambda d, strict: _gpos_read(d, strict, len(rev))}[tag]
+        want = state["want"]
+        if tag == "GPOS":
+            return _post_gpos(tab, font, rev, res, want, content)
         # only glyph lists sorted by glyph id are conforming Coverage content; others are read leniently
         covs = ([c for e in want for cs, recs in e["context3"] for c in cs] if tag == "GSUB" else (want["markGlyphSets"] or []))
         strict = all(c == sorted(c) for c in covs)
@@ -2335,7 +2476,50 @@ def _setup_otl():
             _report(tag, "self-inverse", "decompile(compile(x)) != x", _short((want, back), 600))
         _note("%s.tables" % tag)
 
-    hooks.attach(otBase, "BaseTTXConverter.compile", post=post_table, name="otTable.compile")
+    def _post_gpos(tab, font, rev, res, want, content):
+        if not any(w is not None for w in want):
+            return
+        _judged()
+        try:
+            got = _gpos_read(res, True, len(rev))
+            raw = T.gpos_pairpos(res)
+        except (T.Bad, struct.error, IndexError) as e:
+            _report("GPOS", "reader", "spec reader rejects the table", repr(e))
+            return
+        _cur["cap"]["GPOS"] = {"bytes": res, "reader": got, "raw": raw}
+        if len(got) != len(want):
+            _report("GPOS", "reader", "lookup count differs", (len(want), len(got)), field="lookups")
+            return
+        for i, (w, g) in enumerate(zip(want, got)):
+            if w is not None and g != w:
+                d = _dictdiff(w, g or {})
+                _report("GPOS", "reader", "spec reader sees other effective pair adjustments",
+                        {"lookup": i, "pairs_differing": sum(1 for k in set(w) | set(g or {}) if w.get(k) != (g or {}).get(k)), "first": d},
+                        field="PairPos", diff=_diff_class(w, g or {}))
+        t2 = newTable("GPOS")
+        _judged()
+        try:
+            t2.decompile(res, font)
+            back = content(t2.table, rev)
+        except Exception as e:
+            _report("GPOS", "self-inverse", "decompile of compile output raised %s" % type(e).__name__, repr(e))
+            return
+        for i, (w, b) in enumerate(zip(want, back)):
+            if w is not None and b != w:
+                _report("GPOS", "self-inverse", "decompile(compile(x)) != x (effective pair adjustments)",
+                        {"lookup": i, "pairs_differing": sum(1 for k in set(w) | set(b or {}) if w.get(k) != (b or {}).get(k)),
+                         "first": _dictdiff(w, b or {})}, field="PairPos", diff=_diff_class(w, b or {}))
+        nst = [len(x) for x in raw if x is not None]
+        _note("GPOS.tables")
+        _note("GPOS.pairpos-subtables-written", sum(nst))
+        for x in raw:
+            for st in x or []:
+                _note("GPOS.pairpos-format%d" % st["format"])
+        _key("GPOS/pp/st%s/n%s" % (_size_class(max(nst or [0])), _size_class(max([len(w) for w in want if w is not None] or [0]))))
+
+    hooks.attach(otBase, "BaseTTXConverter.compile", pre=pre_table, post=post_table, name="otTable.compile")
+    _site("PairPos.format2-overflow-split", ot.splitPairPos, r"oldCount = len\(oldSubTable\.Class1Record\) // 2")
+    _site("PairPos.format1-overflow-split", ot.splitPairPos, r"oldCount = len\(oldSubTable\.PairSet\) // 2")
 
     _site("Coverage.format2-chosen", ot.Coverage.preWrite, r"format = 2$")
     _site("Coverage.unsorted-ranges-sorted", ot.Coverage.preWrite, r"ranges\.sort\(key")
